@@ -635,6 +635,7 @@ SITES = [
     ("src/client.rs", r"vec!\[0u8; \(len - 4\) as usize\]", 2, "password readers"),
     ("src/client.rs", r"let process_id = bytes\.get_i32\(\);\s*let secret_key = bytes\.get_i32\(\);", 1, "Client::cancel reads"),
     ("src/client.rs", r"let close: Close = \(&message\)\.try_into\(\)\?;", 2, "Close decoded in both loops"),
+    ("src/client.rs", r"self\.forget_closed_statement\(&close\);", 2, "Close forgets the statement name on arrival, both loops"),
     ("src/messages.rs", r"BytesMut::with_capacity\(len as usize \+ 1\)", 1, "read_message allocation"),
     ("src/messages.rs", r"if slice_end < slice_start", 1, "read_message guard"),
     ("src/messages.rs", r"&buf\[\.\.buf\.len\(\) - 1\]", 1, "cursor read_string"),
